@@ -218,7 +218,9 @@ def run_tab(w, shard, tier, acc, only=None):
                 acc.case(cyc, "duplicates")
                 acc.violation("%s duplicates" % tag, case, expected=exp, observed=got)
             else:
-                acc.case(cyc, "%s:%s" % ("tabled" if tabled else "untabled", "empty" if not exp else "answers"))
+                acc.case(cyc, "%s:%s" % ("tabled" if tabled else "untabled", "empty" if not exp else "answers"),
+                         sample={"edges": [list(e) for e in edges], "form": form, "tabled": tabled, "call": list(c),
+                                 "answers": [list(x) for x in got]})
 
 
 # ---------------------------------------------------------------------------
@@ -411,7 +413,8 @@ def run_cont(w, shard, tier, acc, only=None):
                 continue
             got = [tr_term(s.get("T")) for s in r.sols]
             if got == exp:
-                acc.case(nt, "cont:%s" % ("none" if not exp else "one" if len(exp) == 1 else "many"))
+                acc.case(nt, "cont:%s" % ("none" if not exp else "one" if len(exp) == 1 else "many"),
+                         sample={"body": t, "handler": h, "traces": repr(exp)[:300]})
             else:
                 acc.case(nt, "cont:mismatch")
                 kind = "fewer" if len(got) < len(exp) else "more" if len(got) > len(exp) else "differ"
